@@ -412,6 +412,13 @@ def case_spectrum(rng):
         c["lat"] = rng.uniform(-80, 80, nt)
         c["lon"] = rng.uniform(-170, 170, nt)
         c["depth"] = 10 ** rng.uniform(0, 3, nt)
+    if along == "frequency" and rng.uniform() < 0.5:
+        # unknown position / depth at some times: variables without the frequency coordinate pass through unchanged
+        for k in ("depth", "lat", "lon"):
+            a = np.array(c[k], dtype=float)
+            a[rng.uniform(0, 1, a.shape) < 0.4] = np.nan
+            c[k] = a
+        c["depth_kind"] = "finite+unknown"
     grid = np.asarray(c["time"] if along == "time" else c["freq"])
     targets = make_targets(rng, grid, "time" if along == "time" else "x")
     return {"part": "spectrum", "gen": c, "along": along, "targets": targets,
@@ -465,6 +472,13 @@ def judge_spectrum(ctx, c):
                    for v_ in out.dataset.variables)
         ctx.check("C13.spectrum:second-use==first-use", bool(same), c, None, key="C13:spectrum:second-use")
     ctx.check("C13.spectrum:class", type(out) is type(s), c, {"type": type(out).__name__}, key="C13:spectrum:class")
+    if along == "frequency":
+        bad = [v_ for v_ in ("latitude", "longitude", "depth", "time")
+               if v_ not in out.dataset or not (np.array_equal(np.asarray(s.dataset[v_].values), np.asarray(out.dataset[v_].values), equal_nan=True)
+                                                 if np.asarray(s.dataset[v_].values).dtype.kind == "f"
+                                                 else np.array_equal(np.asarray(s.dataset[v_].values), np.asarray(out.dataset[v_].values)))]
+        ctx.check("C13.spectrum:variables-without-the-coordinate-pass-through", not bad, c, {"changed": bad},
+                  key="C13:spectrum:passthrough")
     tgf = tg.astype(float)
     outside = (tgf < xp.min()) | (tgf > xp.max())
     nearest = c["method"] == "nearest"
